@@ -258,6 +258,40 @@ def sweep_exponents(rng, L, mode, limit=930):
     return k
 
 
+def monotone_label_case(ctx, idx, rng):
+    """States whose label arrays are MONOTONE WITH REPEATS (physical labels such as [1,1,1,0,0,0], bond labels in one or two sectors, non-increasing or
+    non-decreasing) and whose site matrices have 4000 .. 30000 entries (d = 4..6, bonds 10..70): 'already sorted' shortcuts, reversal instead of a stable
+    sort, size thresholds. Dense reach is kept (L = 3, 4), so every C01 relation is checked against the dense vector."""
+    d = int(rng.choice([4, 5, 6]))
+    L = int(rng.choice([4, 4, 5]))
+    direction = ('descending', 'ascending')[idx % 2]
+    vals = sorted(int(x) for x in rng.choice([0, 0, 0, 1, 1, 1, -1], size=d))
+    qd = np.array(vals[::-1] if direction == 'descending' else vals)
+    q0 = int(rng.integers(-1, 2))
+    qD = [np.array([q0])]
+    for i in range(1, L):
+        prof = [None, (4, 9), (10, 31), (40, 91), (4, 12)][i]
+        if (idx // 2) % 2:
+            prof = [None, (4, 12), (40, 91), (10, 31), (4, 9)][i + (5 - L)] if L == 4 else [None, (4, 12), (40, 91), (10, 31), (4, 9)][i]        # mirrored for the right-to-left sweep
+        D = int(rng.integers(*prof))
+        reach = np.unique(np.add.outer(qD[-1], qd).reshape(-1))
+        pick = rng.random()
+        lab = np.sort(rng.choice(reach[:1] if pick < 0.4 else (reach[:2] if pick < 0.7 else reach), size=D))        # often a single sector: all labels equal
+        qD.append(lab[::-1].copy() if (direction == 'descending') != bool(i % 2 and idx % 4 >= 2) else lab)
+    reach = np.unique(np.add.outer(qD[-1], qd).reshape(-1))
+    qD.append(np.array([int(rng.choice(reach))]))
+    psi = ptn.MPS(qd, qD, fill='random', rng=np.random.default_rng(int(rng.integers(0, 2 ** 31))))
+    if idx % 3 == 0:
+        psi.A = [np.ascontiguousarray(a.real) for a in psi.A]
+    mode = ('left', 'right')[(idx // 2) % 2]
+    old = snapshot(psi, False)
+    zero = np.linalg.norm(old['dense']) == 0
+    ctx.case(('mps', 'monotone-labels', direction, f'L{L}', f'd{d}', mode, 'zero-state' if zero else 'nonzero', 'real' if idx % 3 == 0 else 'complex'),
+             nontrivial=not zero, sample={'qd': psi.qd, 'bond_dims': psi.bond_dims, 'mode': mode}, info={'qd': old['qd'], 'qD': old['qD'], 'A': old['A'], 'mode': mode})
+    nrm = psi.orthonormalize(mode)
+    orth_post(ctx, old, psi, nrm, mode, False)
+
+
 def extreme_scale_case(ctx, idx, rng):
     """Tensors scaled by exact powers of two between 2**-830 and 2**830 (single tiny / huge tensors, compensating pairs, everything tiny):
     every intermediate of the sweep is representable, so the claims must hold exactly as for the unscaled object, whose dense form
@@ -525,6 +559,7 @@ SPEC = {
         Workload('mps', mps_case, quick=2400, thorough=400000),
         Workload('mpo', mpo_case, quick=1000, thorough=150000),
         Workload('sequence', sequence_case, quick=600, thorough=60000),
+        Workload('monotone-labels', monotone_label_case, quick=120, thorough=12000),
         Workload('extreme-scales', extreme_scale_case, quick=600, thorough=60000),
         Workload('large', large_case, quick=60, thorough=6000),
         Workload('long-chain', long_chain_case, quick=40, thorough=3000),
